@@ -26,7 +26,10 @@ META = {
             "exactly them on every hit path, that public keys differ exactly by request->vary_headers (MD5 taken as injective) "
             "and that the memory cache keeps mem_obj->vary_headers rest on the end-to-end correspondence (forward proxy, "
             "memory cache, fresh objects, plain GET). The run theorem assumes one Vary value per URL; adjustVary's "
-            "variance-changed branch is transcribed but not exercised. Trusted: Coq kernel, extraction, "
+            "variance-changed branch is transcribed but not exercised (a Vary value that changes between responses of one URL is not "
+            "generated). Malformed Vary values (elements that are not tokens) are compared with the model only; the oracle "
+            "judges `*` and syntactically valid values. Candidate repair for both known findings: "
+            "fixes/C13-vary-mark-all-field-lines.diff (with it the oracle reports nothing on 400 generated scenarios). Trusted: Coq kernel, extraction, "
             "gen/gen_varyesc.cc, gen/gen_hdrtable.cc, vlib/lab.py stubs.",
     "technique": "Coq proof (prefix-code injectivity of the mark by induction over the Vary items, vm_compute sweep of the "
                  "256-entry escape table, store invariant by induction over request sequences) + end-to-end differential "
@@ -210,18 +213,34 @@ def _one(args):
     return "src " + " ".join(map(str, out))
 
 
+CHUNK = 500           # scenarios per squid instance: the memory cache must never come near cache_mem (objects that do not
+                      # fit are simply not kept, which would turn hits into misses and say nothing about Vary)
+
+
 def run_impl(L, scenarios):
-    if "sq" not in _state or not _state["sq"].alive():
+    if "org" not in _state:
         _state["org"] = L.origin(hook=_hook)
-        _state["sq"] = L.squid()
         _state["n"] = 0
-    sq, org = _state["sq"], _state["org"]
-    jobs = []
-    for s in scenarios:
-        _state["n"] += 1
-        jobs.append((sq, org, s, "v%d" % _state["n"]))
-    with concurrent.futures.ThreadPoolExecutor(max_workers=8) as ex:
-        return list(ex.map(_one, jobs))
+        _state["served"] = 0
+    org = _state["org"]
+    out = []
+    for k in range(0, len(scenarios), CHUNK):
+        part = scenarios[k:k + CHUNK]
+        sq = _state.get("sq")
+        if sq is None or not sq.alive() or _state["served"] + len(part) > CHUNK:
+            if sq is not None:
+                sq.stop()
+            sq = _state["sq"] = L.squid(cache_mem="256 MB")
+            _state["served"] = 0
+            org.clear()
+        _state["served"] += len(part)
+        jobs = []
+        for s in part:
+            _state["n"] += 1
+            jobs.append((sq, org, s, "v%d" % _state["n"]))
+        with concurrent.futures.ThreadPoolExecutor(max_workers=8) as ex:
+            out += list(ex.map(_one, jobs))
+    return out
 
 
 # ------------------------------------------------------------------ the property, independently of the model
